@@ -203,7 +203,7 @@ def _detectable(s):
                              spec.unit_size(s.eff), indent, sig)
     k = 'dos' if fl[0] and fl[1][0].endswith(spec.nl('dos', s.eff)) \
         else 'unix'
-    return k == s.kind and _consistent(s)
+    return k == s.kind
 
 
 def _consistent(s):
